@@ -39,6 +39,50 @@ theorem valid_facts (c : Nat) (h : validChar c = true) :
   · rw [h] at h0; exact absurd h0 (by simp)
   · exact ⟨h1.1.1.1, h1.1.1.2, h1.1.2, h1.2⟩
 
+/-- strict mode accepts exactly the arrays made of alphabet characters only, and then returns the non-strict result -/
+theorem charVal_ne_zero_iff (c : Nat) : (charVal c != 0) = validChar c := by
+  unfold charVal validChar
+  by_cases h1 : 65 ≤ c ∧ c ≤ 90
+  · have : c - 65 + 1 ≠ 0 := by omega
+    simp [h1, this]
+  · by_cases h2 : 48 ≤ c ∧ c ≤ 57
+    · have : c - 48 + 27 ≠ 0 := by omega
+      have h1' : ¬ (65 ≤ c ∧ c ≤ 90) := h1
+      simp [h1', h2, this]
+    · by_cases h3 : c = 45
+      · subst h3; decide
+      · by_cases h4 : c = 47
+        · subst h4; decide
+        · by_cases h5 : c = 46
+          · subst h5; decide
+          · simp only [h1, h2, h3, h4, h5, if_false]
+            have a1 : (decide (65 ≤ c) && decide (c ≤ 90)) = false := by
+              rcases Nat.lt_or_ge c 65 with h | h
+              · simp; omega
+              · have : ¬ c ≤ 90 := fun h' => h1 ⟨h, h'⟩
+                simp [this]
+            have a2 : (decide (48 ≤ c) && decide (c ≤ 57)) = false := by
+              rcases Nat.lt_or_ge c 48 with h | h
+              · simp; omega
+              · have : ¬ c ≤ 57 := fun h' => h2 ⟨h, h'⟩
+                simp [this]
+            simp [a1, a2, h3, h4, h5]
+
+theorem encodeStrict_spec (call a : List Nat) :
+    encodeStrict call = some a ↔ (∀ c ∈ call, validChar c = true) ∧ a = encode call := by
+  unfold encodeStrict
+  have : call.all (fun c => charVal c != 0) = call.all validChar := by
+    congr 1; funext c; exact charVal_ne_zero_iff c
+  rw [this]
+  by_cases h : call.all validChar = true
+  · simp only [h, if_true, Option.some.injEq]
+    rw [List.all_eq_true] at h
+    exact ⟨fun e => ⟨h, e.symm⟩, fun e => e.2.symm⟩
+  · simp only [h, if_false]
+    constructor
+    · intro e; cases e
+    · intro e; exact absurd (List.all_eq_true.mpr e.1) h
+
 theorem charVal_le (c : Nat) : charVal c ≤ 39 := by
   unfold charVal; split
   · omega
